@@ -37,16 +37,18 @@ Definition axes_close (exact : bool) (sc : list Q) (a b : list (list Q)) : bool 
                         else forallb2 (qclose rel_tol s) x y) sc a b).
 
 (* scale regime: admissible indices for a point = cells containing it up to 1e-9 of the scale *)
-Definition idx_admissible1 (lo c s : Q) (k j : Z) (p : Q) : bool :=
+(* t = the region's own comparison tolerance at p (atol + rtol |p|, loosened): points inside the tolerance
+   band below pmin / above pmax legitimately map to the first / last cell *)
+Definition idx_admissible1 (t lo c s : Q) (k j : Z) (p : Q) : bool :=
   in_range1 k j &&
-  Qle_bool (lo + inject_Z j * c - rel_tol * s) p &&
-  Qle_bool p (lo + (inject_Z j + 1) * c + rel_tol * s).
+  Qle_bool (lo + inject_Z j * c - t - rel_tol * s) p &&
+  Qle_bool p (lo + (inject_Z j + 1) * c + t + rel_tol * s).
 
-Fixpoint idx_admissible (los cs ss : list Q) (ks js : list Z) (ps : list Q) : bool :=
+Fixpoint idx_admissible (rt at_ : Q) (los cs ss : list Q) (ks js : list Z) (ps : list Q) : bool :=
   match los, cs, ss, ks, js, ps with
   | [], [], [], [], [], [] => true
   | lo :: los', c :: cs', s :: ss', k :: ks', j :: js', p :: ps' =>
-      idx_admissible1 lo c s k j p && idx_admissible los' cs' ss' ks' js' ps'
+      idx_admissible1 (at_ + rt * Qabs p) lo c s k j p && idx_admissible rt at_ los' cs' ss' ks' js' ps'
   | _, _, _, _, _, _ => false
   end.
 
@@ -95,7 +97,8 @@ Definition check_C01 (c : c01_case) : bool :=
             (implb strict obs_in) && (implb obs_in loose) &&
             match obs with
             | None => negb strict
-            | Some j => loose && idx_admissible (pmin (reg m)) (cell m) (scales m) (n m) j p
+            | Some j => loose && idx_admissible (tf (reg m) * (1000001 # 1000000)) (reg_atol (reg m) * (1000001 # 1000000))
+                                          (pmin (reg m)) (cell m) (scales m) (n m) j p
             end
       end
   | CLattice exact p1 p2 n_ obs_len obs_indices obs_points obs_cells obs_vertices obs_coord =>
